@@ -119,6 +119,8 @@ pub use annotationdataset::{AnnotationDataSet, AnnotationDataSetBuilder, Annotat
 pub use annotationstore::AnnotationStore;
 pub use api::*;
 pub use config::{Config, Configurable};
+#[cfg(stam_verif)]
+pub use config::verif_sched::verif_set_yield_hook;
 pub use datakey::{DataKey, DataKeyHandle};
 pub use datavalue::{DataOperator, DataValue};
 pub use error::StamError;
